@@ -6,25 +6,33 @@ use ohmc_core::uni::*;
 fn main() {
     let mut ctx = Ctx::from_args("C10");
     let quick = ctx.quick();
-    let spec = if quick { Spec::open(3, 1, 2, 2, 2, 2, 2) } else { Spec::open(3, 2, 2, 2, 2, 2, 2) };
-    let u = spec.universe();
-    let cap = if quick { 1_000_000 } else { 60_000_000 };
-    ctx.run_slice(Slice::new(format!("round-trips[{} first {}]", spec.name(), cap.min(u.count())), u.count().min(cap), |i, loc| check_roundtrip_strict(&u.get_open(i), loc)));
+    let specs = if quick { vec![Spec::open(3, 1, 2, 2, 2, 2, 2)] } else { Spec::family_3x2(2, 0, true) };
+    for spec in specs {
+        let u = spec.universe();
+        ctx.run_slice(Slice::new(format!("round-trips[{}]", spec.name()), u.count(), |i, loc| check_roundtrip_strict(&u.get_open(i), loc)));
+    }
     // pairs of label-consistent lax diagrams
     let (lspec, rspec) = if quick { (Spec::lax(2, 1, 1, 2, 1, 1, 2, 1), Spec::lax(2, 1, 1, 2, 1, 2, 1, 1)) } else { (Spec::lax(2, 1, 2, 2, 1, 1, 2, 1), Spec::lax(2, 1, 2, 2, 1, 2, 1, 1)) };
     let all: Vec<PLax<u8, u8>> = lspec.universe().all().into_iter().filter(|l| l.label_consistent()).collect();
     let allr: Vec<PLax<u8, u8>> = rspec.universe().all().into_iter().filter(|l| l.label_consistent()).collect();
     let n = allr.len() as u64;
     ctx.run_slice(Slice::new(format!("pairs[{} of {} x {} of {} (label-consistent)]", all.len(), lspec.name(), n, rspec.name()), all.len() as u64 * n, |i, loc| check_pair(&all[(i / n) as usize], &allr[(i % n) as usize], loc)));
-    let lspec1 = if quick { Spec::lax(3, 1, 2, 2, 2, 1, 1, 2) } else { Spec::lax(3, 2, 2, 2, 2, 2, 2, 2) };
-    let u1 = lspec1.universe();
-    let cap1 = if quick { 1_000_000 } else { 60_000_000 };
-    ctx.run_slice(Slice::new(format!("dagger/to_strict[{} first {}]", lspec1.name(), cap1.min(u1.count())), u1.count().min(cap1), |i, loc| {
-        let l = u1.get(i);
-        if l.label_consistent() {
-            check_single(&l, loc)
-        }
-    }));
+    let lspecs1 = if quick {
+        vec![Spec::lax(2, 1, 2, 2, 2, 1, 1, 2), Spec { n_min: 3, lw: 1, lx: 1, ..Spec::lax(3, 1, 2, 2, 2, 1, 1, 2) }, Spec { n_min: 3, ks: 1, kt: 1, ..Spec::lax(3, 1, 2, 2, 2, 1, 1, 2) }]
+    } else {
+        let mut v = Spec::family_3x2(1, 2, false);
+        v.push(Spec::lax(2, 1, 2, 2, 2, 2, 2, 2));
+        v
+    };
+    for lspec1 in lspecs1 {
+        let u1 = lspec1.universe();
+        ctx.run_slice(Slice::new(format!("dagger/to_strict[{}, label-consistent ones]", lspec1.name()), u1.count(), |i, loc| {
+            let l = u1.get(i);
+            if l.label_consistent() {
+                check_single(&l, loc)
+            }
+        }));
+    }
     let objs: Vec<Vec<u8>> = lists(2, 3).into_iter().map(|l| l.into_iter().map(|x| x as u8).collect()).collect();
     let no = objs.len() as u64;
     ctx.run_slice(Slice::new("identity/twist/singleton[lists<=3 over 2 labels ^2]", no * no, |i, loc| check_constructors(&objs[(i / no) as usize], &objs[(i % no) as usize], loc)));
